@@ -8,6 +8,7 @@ to inject new nodes into the graph dynamically.
 
 from __future__ import annotations
 
+import hashlib
 from typing import TYPE_CHECKING, Any
 
 from pyiron_workflow.channels import NOT_DATA, OutputData
@@ -70,7 +71,10 @@ class OutputDataWithInjection(OutputData):
             injection_class.__name__,
             *(self._other_key(other) for other in args),
         )
-        hashed = str(hash(nominal_key)).replace("-", "m")
+        # A digest rather than the builtin `hash`, which is salted per interpreter
+        # session for strings: the label must be the same after saving, restarting
+        # python and loading, or the same expression would no longer find its node
+        hashed = hashlib.sha256(repr(nominal_key).encode()).hexdigest()[:20]
         return f"injected_{injection_class.__name__}_{hashed}"
 
     def _node_injection(self, injection_class, *args, inject_self=True):
